@@ -17,20 +17,39 @@
     * no raw line contains LF, and lowering never introduces LF
       (`LowerKeeps '\n' ops`; for the tables instance the decidable
       `∀ p ∈ t.lower, '\n' ∉ p.2`) (`tokens_no_newline`);
-    * `SetExprPlain e` (no `]`, `[`, `\` in a set expression): the domain on which
-      `parseSetExpr` / `parseSetExpr?` are claimed to be `re`'s reading of
-      `[^e]` (trusted, tested by the harness);
+    * `o.allowed.Supported` — for a set expression `e`: `SetExprPlain e` (no `]`,
+      `[`, `\`), decidable — in EVERY character-level / effect theorem that
+      quantifies over the options: outside this domain the total functions
+      `parseSetExpr` / `parseSetExpr?` are not `re`'s reading of `[^e]`
+      (`"\\"` raises `re.error` but the model compiles it, `"\\d"` keeps the
+      digits, `"a]b"` is the pattern `[^a]b]`: confirmed on /repo).  Inside the
+      domain "the model's ranges are what `re` compiles" is trusted and tested
+      by the harness.  In `tokens_clean`, `tokens_lowered`, `tokens_no_newline`,
+      `create_document_eq_contexts`, … the proof does not use the hypothesis
+      (the statement is true of the total model); it is there because the
+      statement is a claim about the code only on that domain;
     * the number of lines `TextIOWrapper` yields before a `UnicodeDecodeError`
       (`FileContent.badText readable`) is an input of the effect model.
 
-  What a failing call leaves behind: `create_frame`, `late_failure_prefix`,
-  `late_failure_blocks_retry` (the earlier `create_frame` claimed "every failing
-  call leaves the file system unchanged", which is false for the code: the
-  event file is opened and the header written before the first corpus line is
-  read).
+  What a failing call leaves behind: `create_frame`, `late_failure_exact` (the
+  content of the left-over file as an equation, in closed form for both
+  context structures), `late_failure_prefix` (corollary), `late_failure_blocks_retry`
+  (the earlier `create_frame` claimed "every failing call leaves the file system
+  unchanged", which is false for the code: the event file is opened and the
+  header written before the first corpus line is read; the second version only
+  said "∃ es, es is a prefix of the complete run", which `[]` satisfies).
 
-  Lemmas that merely restate a definition are at the end under
-  "lemmas (not property theorems)".
+  MODELLING LIMIT of the raising callable: `raises : Char → Bool` is a set of
+  characters — a callable that raises whenever it is handed one of them.  A
+  callable whose failure depends on anything else (its n-th call, a counter, the
+  time) cannot be expressed; for such a callable the model says nothing.
+
+  The two non-trivial forms of `allowed_symbols` are two code paths of the model
+  (`filterRegex`: `re.sub` with the negated set; `filterCallable`: the index
+  loop over a copy) — `callable_vs_regex` proves that they agree.
+
+  Lemmas that merely restate a definition are marked "(definitional)" or are at
+  the end under "lemmas (not property theorems)".
 -/
 import PyndlProofs.Create
 import PyndlProofs.CreateLF
@@ -130,20 +149,7 @@ theorem stream_eq_contexts (pw : List ω → List (Ev ω)) (hnil : pw [] = [])
   simpa [runDocument] using this
 
 /-- `process_words([])` writes nothing, for every option combination. -/
-theorem processWords_nil (o : Options) : processWords o [] = [] := by
-  cases o with
-  | mk al ctx ev cue lc rd =>
-    cases ev with
-    | consecutiveWords n =>
-      have h0 : intRange (1 - min n 0) 0 = [] := by
-        simp only [intRange]
-        have : ((0 : Int) - (1 - min n 0)).toNat = 0 := by omega
-        rw [this]; rfl
-      cases cue <;> simp [processWords, genOccurrences, genConsecutive, h0, processOccurrences]
-    | wordToWord b a =>
-      cases cue <;> simp [processWords, genOccurrences, genWordToWord, enumFrom, processOccurrences]
-    | line =>
-      cases cue <;> simp [processWords, genOccurrences, processOccurrences, ngramsToWord1, wordCues1]
+theorem processWords_nil (o : Options) : processWords o [] = [] := processWords_nil' o
 
 /-- **no_cross_context.** Every emitted event comes from `process_words` of
     ONE declarative context. -/
@@ -172,7 +178,7 @@ example : docStep (fun ws => [⟨ws, []⟩]) ([1], []) [some [2], none, some [3]
     the file system is unchanged — unless `allowed_symbols` is a set expression
     that does not compile, which is detected even earlier (`re.error`,
     preprocess.py:272 precedes :282); the file system is unchanged then, too. -/
-theorem no_overwrite (raises : Char → Bool) (ops : TextOps) (o : Options)
+theorem no_overwrite (raises : Char → Bool) (ops : TextOps) (o : Options) (_hs : o.allowed.Supported)
     (corpusFile eventFile : String) (fs : FS) (h : (fs eventFile).isSome) :
     createEventFileX raises ops o corpusFile eventFile fs
       = (.error (if o.allowed.badPattern then .badPattern else .eventFileExists), fs) := by
@@ -183,10 +189,13 @@ theorem no_overwrite (raises : Char → Bool) (ops : TextOps) (o : Options)
 
 /-- **a set expression that does not compile** (`''` → `[^]`, a range with
     `lo > hi` such as `z-a`) raises `re.error` before anything is looked at;
-    nothing is created.  (The earlier model totalised these: `''` allowed
-    nothing, `z-a` was an empty range.) -/
+    nothing is created.  For plain expressions (`SetExprPlain e`: outside that
+    domain `re` also rejects e.g. `"\\"`, which the model does not know).
+    (The earlier model totalised these: `''` allowed nothing, `z-a` was an empty
+    range.) -/
 theorem bad_pattern_raises (raises : Char → Bool) (ops : TextOps) (o : Options) (e : List Char)
-    (ha : o.allowed = .expr e) (hbad : e = [] ∨ ∃ r ∈ parseSetExpr e, r.2.toNat < r.1.toNat)
+    (ha : o.allowed = .expr e) (_hp : SetExprPlain e)
+    (hbad : e = [] ∨ ∃ r ∈ parseSetExpr e, r.2.toNat < r.1.toNat)
     (corpusFile eventFile : String) (fs : FS) :
     createEventFileX raises ops o corpusFile eventFile fs = (.error .badPattern, fs) := by
   have : o.allowed.badPattern = true := by
@@ -202,24 +211,36 @@ theorem bad_pattern_raises (raises : Char → Bool) (ops : TextOps) (o : Options
         simp [this]
   simp [createEventFileX, this]
 
-/-- **create_frame.**  For every call (every `TextOps`, every raising set of a
-    callable, every option combination, every file system):
-    1. no path other than the event file is touched;
-    2. a failure that happens BEFORE the event file is opened — `re.error`,
-       existing event file, missing corpus (`CreateErr.early`) — leaves the file
-       system unchanged;
-    3. a failure AFTER that point — corpus not valid UTF-8, raising callable —
-       happens only when the event file did not exist, and leaves an event file
-       behind (header plus the events written so far; `late_failure_prefix` says
-       which);
-    4. a successful call happens only when the event file did not exist and the
-       corpus is a text file, and creates the event file with exactly the events
-       of the model.
+/-- … and these are the ONLY plain expressions that raise: a non-empty plain
+    expression all of whose ranges are ordered compiles, and `re.error` is then
+    not the outcome of the call. -/
+theorem good_pattern_compiles (raises : Char → Bool) (ops : TextOps) (o : Options) (e : List Char)
+    (ha : o.allowed = .expr e) (_hp : SetExprPlain e)
+    (hne : e ≠ []) (hord : ∀ r ∈ parseSetExpr e, r.1.toNat ≤ r.2.toNat)
+    (corpusFile eventFile : String) (fs : FS) :
+    parseSetExpr? e = some (parseSetExpr e) ∧
+    (createEventFileX raises ops o corpusFile eventFile fs).1 ≠ .error .badPattern := by
+  have h1 : parseSetExpr? e = some (parseSetExpr e) := by
+    have : (parseSetExpr e).all (fun r => decide (r.1.toNat ≤ r.2.toNat)) = true := by
+      rw [List.all_eq_true]; intro r hr; simpa using hord r hr
+    cases e with
+    | nil => exact absurd rfl hne
+    | cons c cs => simp [parseSetExpr?, this]
+  refine ⟨h1, ?_⟩
+  have hb : o.allowed.badPattern = false := by rw [ha]; simp [Allowed.badPattern, h1]
+  unfold createEventFileX
+  simp only [hb, Bool.false_eq_true, if_false]
+  split
+  · simp
+  · split
+    · simp
+    · split
+      · simp
+      · split <;> simp
 
-    (Replaces the earlier second conjunct "every failing call leaves the file
-    system unchanged", which is false for the code — confirmed on /repo: a
-    corpus `b'\xff'` leaves a header-only `events.tab.gz`.) -/
-theorem create_frame (raises : Char → Bool) (ops : TextOps) (o : Options)
+/-- (auxiliary: the frame clauses with the weak form of clause 3; the property
+    theorem is `create_frame` below) -/
+private theorem create_frame_aux (raises : Char → Bool) (ops : TextOps) (o : Options)
     (corpusFile eventFile : String) (fs : FS) :
     (∀ p, p ≠ eventFile → (createEventFileX raises ops o corpusFile eventFile fs).2 p = fs p) ∧
     (∀ e, (createEventFileX raises ops o corpusFile eventFile fs).1 = .error e → e.early = true →
@@ -271,12 +292,171 @@ theorem create_frame (raises : Char → Bool) (ops : TextOps) (o : Options)
             | other tag => simp [FileContent.readable] at hr
             | badText lines => simp [FileContent.readable] at hr
 
-/-- **what a late failure leaves behind is a prefix of the complete run**: the
-    event file holds the header and an initial segment of the events the same
-    call writes on the readable lines of the corpus when nothing fails (same
-    `TextOps`, same options; a callable that does not raise).  In particular
-    every line of the left-over file is a complete, correct event. -/
+
+/-- where a late failure of class `e` strikes in the readable lines of the
+    corpus: a raising callable at the first `(line k, element i)` at which it is
+    handed one of its raising characters (`firstFault`); the `UnicodeDecodeError`
+    of the line iterator after the last readable line (`k = |lines|`, `i = 0`),
+    and only if the callable — if there is one — has not raised before. -/
+def FaultAt (raises : Char → Bool) (ops : TextOps) (o : Options) (content : FileContent)
+    (e : CreateErr) (k i : Nat) : Prop :=
+  (e = .callableRaised ∧ o.allowed.isCallable = true ∧
+    firstFault raises ops o.lowerCase o.context 0 content.readable.1 = some (k, i)) ∨
+  (e = .corpusNotText ∧ content.readable.2 = true ∧ k = content.readable.1.length ∧ i = 0 ∧
+    (o.allowed.isCallable = true →
+      firstFault raises ops o.lowerCase o.context 0 content.readable.1 = none))
+
+/-- **the content of the left-over file, as an equation**: after a late failure
+    the event file holds the header and EXACTLY the events `writtenBeforeG` at the
+    position of the fault (`FaultAt`).  (`late_failure_exact` gives
+    `writtenBeforeG` in closed form.) -/
+theorem late_failure_content (raises : Char → Bool) (ops : TextOps) (o : Options)
+    (_hs : o.allowed.Supported)
+    (corpusFile eventFile : String) (fs : FS) (e : CreateErr)
+    (h : (createEventFileX raises ops o corpusFile eventFile fs).1 = .error e) (hl : e.early = false) :
+    ∃ content k i, fs corpusFile = some content ∧ FaultAt raises ops o content e k i ∧
+      (createEventFileX raises ops o corpusFile eventFile fs).2 eventFile
+        = some (.events (writtenBeforeG ops o content.readable.1 k i)) := by
+  unfold createEventFileX at h ⊢
+  by_cases hb : o.allowed.badPattern = true
+  · simp only [hb, if_true] at h
+    cases h; simp [CreateErr.early] at hl
+  · simp only [hb, Bool.false_eq_true, if_false] at h ⊢
+    cases hev : fs eventFile with
+    | some c =>
+      simp only [hev, Option.isSome_some, if_true] at h
+      cases h; simp [CreateErr.early] at hl
+    | none =>
+      simp only [hev, Option.isSome_none, Bool.false_eq_true, if_false] at h ⊢
+      cases hco : fs corpusFile with
+      | none =>
+        simp only [hco] at h
+        cases h; simp [CreateErr.early] at hl
+      | some content =>
+        simp only [hco] at h ⊢
+        refine ⟨content, ?_⟩
+        cases hf : (if o.allowed.isCallable = true then
+            firstFault raises ops o.lowerCase o.context 0 content.readable.1 else none) with
+        | some ki =>
+          obtain ⟨k, i⟩ := ki
+          simp only [hf] at h
+          cases h
+          have hc : o.allowed.isCallable = true := by
+            by_cases hc : o.allowed.isCallable = true
+            · exact hc
+            · simp [hc] at hf
+          refine ⟨k, i, rfl, Or.inl ⟨rfl, hc, by simpa [hc] using hf⟩, by simp [fsSet]⟩
+        | none =>
+          simp only [hf] at h
+          simp only []
+          cases hr : content.readable.2 with
+          | true =>
+            simp only [hr, if_true] at h
+            cases h
+            refine ⟨content.readable.1.length, 0, trivial,
+              Or.inr ⟨rfl, hr, rfl, rfl, fun hc => by simpa [hc] using hf⟩, by simp [fsSet]⟩
+          | false =>
+            simp only [hr, Bool.false_eq_true, if_false] at h
+            cases h
+
+/-- **create_frame.**  For every call (every `TextOps`, every raising set of a
+    callable, every supported option combination, every file system):
+    1. no path other than the event file is touched;
+    2. a failure that happens BEFORE the event file is opened — `re.error`,
+       existing event file, missing corpus (`CreateErr.early`) — leaves the file
+       system unchanged;
+    3. a failure AFTER that point — corpus not valid UTF-8, raising callable —
+       happens only when the event file did not exist, and leaves an event file
+       behind that holds the header and EXACTLY the events written before the
+       position of the fault (`FaultAt`; `late_failure_exact` gives them in
+       closed form);
+    4. a successful call happens only when the event file did not exist and the
+       corpus is a text file, and creates the event file with exactly the events
+       of the model.
+
+    (History: the first version's second conjunct "every failing call leaves the
+    file system unchanged" is false for the code — a corpus `b'\xff'` leaves a
+    header-only `events.tab.gz`; the second version's clause 3 said only
+    "∃ es, the file holds es", which is no content at all.) -/
+theorem create_frame (raises : Char → Bool) (ops : TextOps) (o : Options) (hs : o.allowed.Supported)
+    (corpusFile eventFile : String) (fs : FS) :
+    (∀ p, p ≠ eventFile → (createEventFileX raises ops o corpusFile eventFile fs).2 p = fs p) ∧
+    (∀ e, (createEventFileX raises ops o corpusFile eventFile fs).1 = .error e → e.early = true →
+      (createEventFileX raises ops o corpusFile eventFile fs).2 = fs) ∧
+    (∀ e, (createEventFileX raises ops o corpusFile eventFile fs).1 = .error e → e.early = false →
+      fs eventFile = none ∧
+      ∃ content k i, fs corpusFile = some content ∧ FaultAt raises ops o content e k i ∧
+        (createEventFileX raises ops o corpusFile eventFile fs).2 eventFile
+          = some (.events (writtenBeforeG ops o content.readable.1 k i))) ∧
+    ((createEventFileX raises ops o corpusFile eventFile fs).1 = .ok () →
+      fs eventFile = none ∧ ∃ lines, fs corpusFile = some (.corpus lines) ∧
+        (createEventFileX raises ops o corpusFile eventFile fs).2 eventFile
+          = some (.events (createEventsG ops o lines))) := by
+  obtain ⟨c1, c2, c3, c4⟩ := create_frame_aux raises ops o corpusFile eventFile fs
+  exact ⟨c1, c2, fun e h hl => ⟨(c3 e h hl).1,
+    late_failure_content raises ops o hs corpusFile eventFile fs e h hl⟩, c4⟩
+
+/-- **what a late failure leaves behind, in closed form.**  With `lines` the
+    lines the iterator yields before it fails (all lines of a text corpus), `k`
+    the line in which the fault strikes (`k = |lines|` for the
+    `UnicodeDecodeError` of the iterator) and, for document contexts, `j` the
+    number of markers of line `k` that precede the fault (the callable is handed
+    text piece `j`, element `2j` of the split):
+
+    * `context_structure='line'`: the file is exactly the file a complete,
+      successful call writes for the corpus `lines[:k]`;
+    * `context_structure='document'`: the file holds exactly `process_words` of
+      every context CLOSED by a marker before the fault — the markers of the
+      lines before `k` and the first `j` markers of line `k` — in order, and
+      nothing of the open context (the carry-over buffer is lost). -/
+theorem late_failure_exact (raises : Char → Bool) (ops : TextOps) (o : Options)
+    (hs : o.allowed.Supported)
+    (corpusFile eventFile : String) (fs : FS) (e : CreateErr)
+    (h : (createEventFileX raises ops o corpusFile eventFile fs).1 = .error e) (hl : e.early = false) :
+    ∃ content k j, fs corpusFile = some content ∧
+      ((e = .callableRaised ∧ ∃ i, firstFault raises ops o.lowerCase o.context 0 content.readable.1 = some (k, i) ∧
+          (o.context = .document → i = 2 * j))
+        ∨ (e = .corpusNotText ∧ k = content.readable.1.length ∧ j = 0)) ∧
+      (o.context = .line →
+        (createEventFileX raises ops o corpusFile eventFile fs).2 eventFile
+          = some (.events (createEventsG ops o (content.readable.1.take k)))) ∧
+      (o.context = .document →
+        (createEventFileX raises ops o corpusFile eventFile fs).2 eventFile
+          = some (.events ((closedContexts (itemsBefore
+              (content.readable.1.map (docLineElemsG ops o.lowerCase o.allowed)) k j)).flatMap
+                (processWords o)))) := by
+  obtain ⟨content, k, i, hco, hfa, hfile⟩ :=
+    late_failure_content raises ops o hs corpusFile eventFile fs e h hl
+  refine ⟨content, k, i / 2, hco, ?_, ?_, ?_⟩
+  · rcases hfa with ⟨he, _, hff⟩ | ⟨he, _, hk, hi, _⟩
+    · refine Or.inl ⟨he, i, hff, fun hdoc => ?_⟩
+      rw [hdoc] at hff
+      have := firstFault_document_even raises ops o.lowerCase _ 0 k i hff
+      omega
+    · exact Or.inr ⟨he, hk, by rw [hi]⟩
+  · intro hline
+    rw [hfile, writtenBeforeG_line ops o hline]
+  · intro hdoc
+    rw [hfile]
+    rcases hfa with ⟨_, _, hff⟩ | ⟨_, _, hk, hi, _⟩
+    · rw [hdoc] at hff
+      have hev := firstFault_document_even raises ops o.lowerCase _ 0 k i hff
+      obtain ⟨_, h2, h3⟩ := firstFault_spec raises ops o.lowerCase .document _ 0 k i hff
+      simp only [Nat.sub_zero] at h2 h3
+      rw [seenG_length ops o.lowerCase o.allowed] at h3
+      have hi2 : i = 2 * (i / 2) := by omega
+      rw [← writtenBeforeG_document ops o hdoc _ k (i / 2) (Or.inl ⟨h2, by rw [← hi2]; exact h3⟩), ← hi2]
+    · subst hk; subst hi
+      rw [← writtenBeforeG_document ops o hdoc _ _ (0 / 2) (Or.inr ⟨Nat.le_refl _, rfl⟩)]
+
+/-- **corollary: what a late failure leaves behind is a prefix of the complete
+    run**: the event file holds the header and an initial segment of the events
+    the same call writes on the readable lines of the corpus when nothing fails
+    (same `TextOps`, same options; a callable that does not raise).  In
+    particular every line of the left-over file is a complete, correct event.
+    (WHICH initial segment: `late_failure_exact`.) -/
 theorem late_failure_prefix (raises : Char → Bool) (ops : TextOps) (o : Options)
+    (_hs : o.allowed.Supported)
     (corpusFile eventFile : String) (fs : FS) (e : CreateErr)
     (h : (createEventFileX raises ops o corpusFile eventFile fs).1 = .error e) (hl : e.early = false) :
     ∃ content es, fs corpusFile = some content ∧
@@ -338,15 +518,17 @@ theorem late_failure_prefix (raises : Char → Bool) (ops : TextOps) (o : Option
     raise `OSError` ("file exits. Remove file and start again.") and change
     nothing — observed on /repo. -/
 theorem late_failure_blocks_retry (raises : Char → Bool) (ops : TextOps) (o : Options)
+    (hs : o.allowed.Supported)
     (corpusFile eventFile : String) (fs : FS) (e : CreateErr)
     (h : (createEventFileX raises ops o corpusFile eventFile fs).1 = .error e) (hl : e.early = false)
-    (raises' : Char → Bool) (ops' : TextOps) (o' : Options) (hpat : o'.allowed.badPattern = false)
+    (raises' : Char → Bool) (ops' : TextOps) (o' : Options) (hs' : o'.allowed.Supported)
+    (hpat : o'.allowed.badPattern = false)
     (corpusFile' : String) :
     createEventFileX raises' ops' o' corpusFile' eventFile
         (createEventFileX raises ops o corpusFile eventFile fs).2
       = (.error .eventFileExists, (createEventFileX raises ops o corpusFile eventFile fs).2) := by
-  obtain ⟨_, es, hes⟩ := ((create_frame raises ops o corpusFile eventFile fs).2.2.1 e h hl)
-  have := no_overwrite raises' ops' o' corpusFile' eventFile
+  obtain ⟨_, _, _, _, _, _, hes⟩ := ((create_frame raises ops o hs corpusFile eventFile fs).2.2.1 e h hl)
+  have := no_overwrite raises' ops' o' hs' corpusFile' eventFile
     (createEventFileX raises ops o corpusFile eventFile fs).2 (by rw [hes]; rfl)
   rw [this, hpat]; rfl
 
@@ -399,7 +581,7 @@ example :
       "c" "c" fs2).1 = some .badPattern := by
   decide +kernel
 
-/-- `late_failure_prefix` and `late_failure_blocks_retry` APPLIED (both
+/-- `late_failure_prefix` and `late_failure_blocks_retry` APPLIED (all
     hypotheses instantiated by evaluation) to the undecodable corpus above. -/
 example :
     let ops : TextOps := ⟨id, fun c => c == ' '⟩
@@ -414,8 +596,75 @@ example :
   intro ops o fs2
   have h : (createEventFileX (fun _ => false) ops o "c" "e" fs2).1 = .error .corpusNotText := by
     decide +kernel
-  exact ⟨late_failure_prefix _ ops o "c" "e" fs2 .corpusNotText h rfl,
-    late_failure_blocks_retry _ ops o "c" "e" fs2 .corpusNotText h rfl _ ops o rfl "c"⟩
+  exact ⟨late_failure_prefix _ ops o trivial "c" "e" fs2 .corpusNotText h rfl,
+    late_failure_blocks_retry _ ops o trivial "c" "e" fs2 .corpusNotText h rfl _ ops o trivial rfl "c"⟩
+
+/-- `create_frame` and `late_failure_exact` APPLIED to a raising callable
+    (`allowed_symbols` = a callable accepting `a-z` and `Q` that raises on `Q`),
+    document contexts, corpus
+    `a b / c d ---end.of.document--- e f ---END.OF.DOCUMENT--- g Q ---end.of.document--- h / z`:
+    the fault is in line 1, text piece 2 (element 4 of the split); the left-over
+    file holds exactly the two contexts closed before it (`a b c d`, `e f`) —
+    nothing of `g Q`. -/
+example :
+    let ops : TextOps := ⟨id, fun c => c == ' '⟩
+    let o : Options := ⟨.table [('a', 'z'), ('Q', 'Q')], .document, .line, .wordToWord, false, false⟩
+    let lines := ["a b".toList,
+      "c d ---end.of.document--- e f ---END.OF.DOCUMENT--- g Q ---end.of.document--- h".toList, "z".toList]
+    let fs : FS := fun p => if p = "c" then some (.corpus lines) else none
+    let r := createEventFileX (fun c => c == 'Q') ops o "c" "e" fs
+    -- clause 1 and clause 3 of `create_frame`
+    (∀ p, p ≠ "e" → r.2 p = fs p) ∧
+    (fs "e" = none ∧ ∃ content k i, fs "c" = some content ∧
+        FaultAt (fun c => c == 'Q') ops o content .callableRaised k i ∧
+        r.2 "e" = some (.events (writtenBeforeG ops o content.readable.1 k i))) ∧
+    -- `late_failure_exact`
+    (∃ content k j, fs "c" = some content ∧
+      ((CreateErr.callableRaised = .callableRaised ∧
+          ∃ i, firstFault (fun c => c == 'Q') ops o.lowerCase o.context 0 content.readable.1 = some (k, i) ∧
+            (o.context = .document → i = 2 * j))
+        ∨ (CreateErr.callableRaised = .corpusNotText ∧ k = content.readable.1.length ∧ j = 0)) ∧
+      (o.context = .line → r.2 "e" = some (.events (createEventsG ops o (content.readable.1.take k)))) ∧
+      (o.context = .document → r.2 "e" = some (.events ((closedContexts (itemsBefore
+          (content.readable.1.map (docLineElemsG ops o.lowerCase o.allowed)) k j)).flatMap (processWords o))))) ∧
+    -- … and what the closed form evaluates to at the fault position `(1, 2)`
+    (closedContexts (itemsBefore (lines.map (docLineElemsG ops o.lowerCase o.allowed)) 1 2)).flatMap (processWords o)
+      = [⟨["a".toList, "b".toList, "c".toList, "d".toList], ["a".toList, "b".toList, "c".toList, "d".toList]⟩,
+         ⟨["e".toList, "f".toList], ["e".toList, "f".toList]⟩] := by
+  intro ops o lines fs r
+  have h : r.1 = .error .callableRaised := by decide +kernel
+  have hf := create_frame (fun c => c == 'Q') ops o trivial "c" "e" fs
+  exact ⟨hf.1, hf.2.2.1 _ h rfl,
+    late_failure_exact (fun c => c == 'Q') ops o trivial "c" "e" fs .callableRaised h rfl,
+    by decide +kernel⟩
+
+/-- `late_failure_exact`, `'line'` contexts, APPLIED: the left-over file IS the
+    event file of the corpus cut before the faulty line. -/
+example :
+    let ops : TextOps := ⟨id, fun c => c == ' '⟩
+    let o : Options := ⟨.table [('a', 'z'), ('Q', 'Q')], .line, .line, .wordToWord, false, false⟩
+    let lines := ["a b".toList, "c Q".toList, "z".toList]
+    let fs : FS := fun p => if p = "c" then some (.corpus lines) else none
+    (createEventFileX (fun c => c == 'Q') ops o "c" "e" fs).2 "e"
+      = some (.events (createEventsG ops o (lines.take 1))) := by
+  intro ops o lines fs
+  have h : (createEventFileX (fun c => c == 'Q') ops o "c" "e" fs).1 = .error .callableRaised := by
+    decide +kernel
+  obtain ⟨content, k, j, hco, hpos, hline, _⟩ :=
+    late_failure_exact (fun c => c == 'Q') ops o trivial "c" "e" fs .callableRaised h rfl
+  have hc : content = .corpus lines := by
+    have : fs "c" = some (.corpus lines) := rfl
+    rw [this] at hco; exact (Option.some.inj hco).symm
+  subst hc
+  have hk : k = 1 := by
+    rcases hpos with ⟨_, i, hff, _⟩ | ⟨he, _⟩
+    · have : firstFault (fun c => c == 'Q') ops o.lowerCase o.context 0 lines = some (1, 0) := by
+        decide +kernel
+      have e := this.symm.trans hff
+      exact ((Prod.mk.inj (Option.some.inj e)).1).symm
+    · cases he
+  subst hk
+  exact hline rfl
 
 example :
     let ops : TextOps := ⟨id, fun c => c == ' '⟩
@@ -439,8 +688,8 @@ example :
 
 /-! ### the character level, for arbitrary `TextOps` -/
 
-/-- the tables instance the driver runs is the general model at `t.ops` (so
-    every theorem below holds for it). -/
+/-- (definitional: `cases o.context <;> rfl`) the tables instance the driver
+    runs is the general model at `t.ops` (so every theorem below holds for it). -/
 theorem create_tables_instance (t : Tables) (o : Options) (rawLines : List (List Char)) :
     createEvents t o rawLines = createEventsG t.ops o rawLines :=
   createEvents_eq_G t o rawLines
@@ -452,8 +701,8 @@ theorem create_tables_instance (t : Tables) (o : Options) (rawLines : List (List
     concatenated up to each marker.  (The shape hypothesis of the token-level
     theorem is discharged: `re.split` with the capturing group always yields
     `[t0, marker, t1, …]` and `process_context` empties the marker elements.) -/
-theorem create_document_eq_contexts (ops : TextOps) (o : Options) (hc : o.context = .document)
-    (rawLines : List (List Char)) :
+theorem create_document_eq_contexts (ops : TextOps) (o : Options) (_hs : o.allowed.Supported)
+    (hc : o.context = .document) (rawLines : List (List Char)) :
     createEventsG ops o rawLines =
       (groupContexts ((rawLines.map (docLineElemsG ops o.lowerCase o.allowed)).flatMap
           (fun l => lineItems (evens l))) []).flatMap (processWords o) := by
@@ -465,8 +714,8 @@ theorem create_document_eq_contexts (ops : TextOps) (o : Options) (hc : o.contex
   exact docLineElemsG_wellShaped ops o.lowerCase o.allowed raw
 
 /-- `context_structure='line'`: one context per line. -/
-theorem create_line_eq_contexts (ops : TextOps) (o : Options) (hc : o.context = .line)
-    (rawLines : List (List Char)) :
+theorem create_line_eq_contexts (ops : TextOps) (o : Options) (_hs : o.allowed.Supported)
+    (hc : o.context = .line) (rawLines : List (List Char)) :
     createEventsG ops o rawLines =
       (rawLines.map (lineWordsG ops o.lowerCase o.allowed)).flatMap (processWords o) := by
   simp only [createEventsG, hc]
@@ -513,8 +762,8 @@ theorem split_text_pieces (s : List Char) :
     size ≥ 1): no written token is empty or contains a blank, `_` or TAB, and
     outcome tokens (words) contain no `#` — so every data line splits back
     into exactly the tokens written (feeds C15). -/
-theorem tokens_clean (ops : TextOps) (o : Options) (hn : ∀ n, o.cue = .ngrams n → 1 ≤ n)
-    (rawLines : List (List Char)) :
+theorem tokens_clean (ops : TextOps) (o : Options) (_hs : o.allowed.Supported)
+    (hn : ∀ n, o.cue = .ngrams n → 1 ≤ n) (rawLines : List (List Char)) :
     ∀ ev ∈ createEventsG ops o rawLines,
       (∀ tok ∈ ev.cues, tok ≠ [] ∧ ' ' ∉ tok ∧ '_' ∉ tok ∧ '\t' ∉ tok) ∧
       (∀ tok ∈ ev.outcomes, tok ≠ [] ∧ ' ' ∉ tok ∧ '_' ∉ tok ∧ '\t' ∉ tok ∧ '#' ∉ tok) := by
@@ -534,8 +783,13 @@ theorem tokens_clean (ops : TextOps) (o : Options) (hn : ∀ n, o.cue = .ngrams 
 /-- **tokens_allowed** (the symbol filter): every character of every written
     outcome token satisfies `allowed_symbols`; every character of every cue
     token does, or is the `#` of the n-gram phrase.  For the three forms of
-    `allowed_symbols` (`'all'`: `ok` is constantly true). -/
-theorem tokens_allowed (ops : TextOps) (o : Options) (rawLines : List (List Char)) :
+    `allowed_symbols` (`'all'`: `ok` is constantly true; a set expression must be
+    plain — `Allowed.Supported` —: for `"\\d"` the code keeps digits, which
+    `Allowed.ok` does not know).  The proof goes through BOTH filter code paths
+    (`filterSymbols_eq_map`: the `re.sub` scan and the index loop let through
+    exactly the characters with `Allowed.ok`). -/
+theorem tokens_allowed (ops : TextOps) (o : Options) (_hs : o.allowed.Supported)
+    (rawLines : List (List Char)) :
     ∀ ev ∈ createEventsG ops o rawLines,
       (∀ tok ∈ ev.outcomes, ∀ c ∈ tok, o.allowed.ok c = true) ∧
       (∀ tok ∈ ev.cues, ∀ c ∈ tok, o.allowed.ok c = true ∨ c = '#') := by
@@ -547,11 +801,22 @@ theorem tokens_allowed (ops : TextOps) (o : Options) (rawLines : List (List Char
   · exact h
 
 /-- **tokens_lowered** (`lower_case=True`): whatever is true of every character
-    of every lowered string (`L`; for `str.lower`: "is not an upper-case
-    letter") is true of every character of every written outcome token, and of
-    every character other than `#` of every cue token — the tokens are made of
-    lowered text only.  Stated for an ARBITRARY lowering function. -/
-theorem tokens_lowered (ops : TextOps) (o : Options) (hlc : o.lowerCase = true)
+    of every lowered string (`L`) is true of every character of every written
+    outcome token, and of every character other than `#` of every cue token —
+    the tokens are made of lowered text only.  Stated for an ARBITRARY lowering
+    function.
+
+    Which `L` holds of Python's `str.lower`?  NOT "`c` is not an upper-case
+    letter" (`not c.isupper()`): 549 code points of CPython 3.12 are upper-case
+    (`isupper()`) and have no lower-case mapping — `ϒ` U+03D2, `ℂ` U+2102, … —
+    so they survive lowering unchanged and `hL` is false for that `L`.  The
+    correct reading is the fixed-point form `L c := (lower [c] = [c])`
+    ("`c.lower() == c`"): it holds of every character of `s.lower()` for every
+    string `s` (checked over all code points, and for the final-sigma context).
+    For the tables instance `hL` is a decidable check of the table; the example
+    below uses `L c := c ≠ 'Σ' ∧ c ≠ 'Α'` for a two-letter lowering function. -/
+theorem tokens_lowered (ops : TextOps) (o : Options) (_hs : o.allowed.Supported)
+    (hlc : o.lowerCase = true)
     (L : Char → Prop) (hL : ∀ s, ∀ c ∈ ops.lower s, L c) (rawLines : List (List Char)) :
     ∀ ev ∈ createEventsG ops o rawLines,
       (∀ tok ∈ ev.outcomes, ∀ c ∈ tok, L c) ∧ (∀ tok ∈ ev.cues, ∀ c ∈ tok, L c ∨ c = '#') := by
@@ -562,7 +827,8 @@ theorem tokens_lowered (ops : TextOps) (o : Options) (hlc : o.lowerCase = true)
   · rw [hlc] at h; cases h
   · exact hL _ c h
 
-/-- `lower_case=False`: the lowering function is never called. -/
+/-- (definitional: unfolds `lowered ops false line = line`) `lower_case=False`:
+    the lowering function is never called. -/
 theorem lower_unused (l1 l2 : List Char → List Char) (isWs : Char → Bool) (o : Options)
     (hlc : o.lowerCase = false) (rawLines : List (List Char)) :
     createEventsG ⟨l1, isWs⟩ o rawLines = createEventsG ⟨l2, isWs⟩ o rawLines := by
@@ -583,51 +849,106 @@ example :
     processLineG ⟨fun s => s.map Char.toLower, fun c => c == ' '⟩ true (.expr "a-z".toList) "Ab_c#D é".toList
       = "ab c d  ".toList := by decide +kernel
 
-/-- **callable vs. set expression**: a set expression and the callable given by
-    the ranges the expression denotes filter alike, so the written events are
-    the same.  (By construction of `Allowed.ok`; that `parseSetExpr e` IS what
-    `re` makes of `[^e]` for plain `e` is trusted and tested.)  On the file
-    system the two calls agree when the expression compiles and the callable
-    does not raise. -/
-theorem callable_vs_regex (ops : TextOps) (e : List Char) (ctx : ContextStructure)
+/-- **callable vs. set expression**: a (plain) set expression `e` and a callable
+    that accepts exactly the characters the expression denotes (`rs`: the table
+    of the callable; e.g. `rs = parseSetExpr e`, or the same ranges in another
+    order, or merged) write the same events.
+
+    This is a statement about TWO CODE PATHS of the model of `filter_symbols`:
+    the set expression goes through `filterRegex` (preprocess.py:272-274:
+    `re.compile('[^…]')`, `sub`: a left-to-right scan that replaces every
+    character the NEGATED set matches), the callable through `filterCallable`
+    (263-269: an index loop writing blanks into a copy of the line).  The proof
+    shows both to be the same per-character map (`filterRegex_eq_filterCallable`).
+    What remains trusted (and tested): that `parseSetExpr e` is the item list
+    `re` compiles for `[^e]` when `e` is plain.
+
+    (The earlier version was `cases ctx <;> rfl`: the filter was DEFINED through
+    `Allowed.ok`, which made the two forms one code path.) -/
+theorem callable_vs_regex (ops : TextOps) (e : List Char) (_hp : SetExprPlain e)
+    (rs : List (Char × Char)) (hrs : ∀ c, inRanges rs c = inRanges (parseSetExpr e) c)
+    (ctx : ContextStructure)
     (es : EventStructure) (cs : CueStructure) (lc rd : Bool) (rawLines : List (List Char)) :
     createEventsG ops ⟨.expr e, ctx, es, cs, lc, rd⟩ rawLines
-      = createEventsG ops ⟨.table (parseSetExpr e), ctx, es, cs, lc, rd⟩ rawLines := by
-  cases ctx <;> rfl
+      = createEventsG ops ⟨.table rs, ctx, es, cs, lc, rd⟩ rawLines :=
+  createEventsG_congr_allowed ops (.expr e) (.table rs)
+    (funext fun s => filterRegex_eq_filterCallable (parseSetExpr e) (inRanges rs) hrs ' ' s)
+    ctx es cs lc rd rawLines
 
 /-- … on the file system: when the expression compiles and the callable does
-    not raise, the two calls do the same to every file system. -/
-theorem callable_vs_regex_file (ops : TextOps) (e : List Char) (rs : List (Char × Char))
-    (he : parseSetExpr? e = some rs) (ctx : ContextStructure)
+    not raise, the two calls do the same to every file system (same result, same
+    event file — also what is left behind when the corpus is not valid UTF-8). -/
+theorem callable_vs_regex_file (ops : TextOps) (e : List Char) (hp : SetExprPlain e)
+    (rs : List (Char × Char)) (hrs : ∀ c, inRanges rs c = inRanges (parseSetExpr e) c)
+    (he : (parseSetExpr? e).isSome) (ctx : ContextStructure)
     (es : EventStructure) (cs : CueStructure) (lc rd : Bool) (corpusFile eventFile : String) (fs : FS) :
     createEventFileX (fun _ => false) ops ⟨.expr e, ctx, es, cs, lc, rd⟩ corpusFile eventFile fs
       = createEventFileX (fun _ => false) ops ⟨.table rs, ctx, es, cs, lc, rd⟩ corpusFile eventFile fs := by
-  have hrs : rs = parseSetExpr e := by
-    simp only [parseSetExpr?] at he
-    split at he
-    · cases he
-    · split at he
-      · exact (Option.some.inj he).symm
-      · cases he
-  subst hrs
-  have hbad : (Allowed.expr e).badPattern = false := by simp [Allowed.badPattern, he]
+  have hfs : filterSymbols (.expr e) = filterSymbols (.table rs) :=
+    funext fun s => filterRegex_eq_filterCallable (parseSetExpr e) (inRanges rs) hrs ' ' s
   have hev : ∀ lines, createEventsG ops ⟨.expr e, ctx, es, cs, lc, rd⟩ lines
-      = createEventsG ops ⟨.table (parseSetExpr e), ctx, es, cs, lc, rd⟩ lines :=
-    fun lines => callable_vs_regex ops e ctx es cs lc rd lines
+      = createEventsG ops ⟨.table rs, ctx, es, cs, lc, rd⟩ lines :=
+    fun lines => callable_vs_regex ops e hp rs hrs ctx es cs lc rd lines
   have hwb : ∀ lines k i, writtenBeforeG ops ⟨.expr e, ctx, es, cs, lc, rd⟩ lines k i
-      = writtenBeforeG ops ⟨.table (parseSetExpr e), ctx, es, cs, lc, rd⟩ lines k i := by
-    intro lines k i; cases ctx <;> rfl
-  have hnone : (parseSetExpr? e).isNone = false := by rw [he]; rfl
+      = writtenBeforeG ops ⟨.table rs, ctx, es, cs, lc, rd⟩ lines k i :=
+    fun lines k i => writtenBeforeG_congr_allowed ops _ _ hfs ctx es cs lc rd lines k i
+  have hnone : (parseSetExpr? e).isNone = false := by
+    cases h : parseSetExpr? e with
+    | none => rw [h] at he; cases he
+    | some _ => rfl
   simp only [createEventFileX, Allowed.badPattern, Allowed.isCallable, firstFault_never, hev, hwb, hnone,
     Bool.false_eq_true, if_false, ite_self]
+
+/-- `callable_vs_regex(_file)` APPLIED: `allowed_symbols='a-cx-'` against a
+    callable given by the SAME set written differently (`x`, `-`, `a-b`, `c`),
+    `lower_case=True`, document contexts, trigram cues: all hypotheses
+    instantiated (`hrs` is a statement about all characters: proved, not
+    decided). -/
+example (ops : TextOps) (rawLines : List (List Char)) (fs : FS) :
+    createEventsG ops ⟨.expr "a-cx-".toList, .document, .consecutiveWords 2, .ngrams 3, true, true⟩ rawLines
+      = createEventsG ops ⟨.table [('x', 'x'), ('-', '-'), ('a', 'b'), ('c', 'c')], .document,
+          .consecutiveWords 2, .ngrams 3, true, true⟩ rawLines ∧
+    createEventFileX (fun _ => false) ops
+        ⟨.expr "a-cx-".toList, .document, .consecutiveWords 2, .ngrams 3, true, true⟩ "c" "e" fs
+      = createEventFileX (fun _ => false) ops
+        ⟨.table [('x', 'x'), ('-', '-'), ('a', 'b'), ('c', 'c')], .document,
+          .consecutiveWords 2, .ngrams 3, true, true⟩ "c" "e" fs := by
+  have hrs : ∀ c, inRanges [('x', 'x'), ('-', '-'), ('a', 'b'), ('c', 'c')] c
+      = inRanges (parseSetExpr "a-cx-".toList) c := by
+    intro c
+    have hp : parseSetExpr "a-cx-".toList = [('a', 'c'), ('x', 'x'), ('-', '-')] := by decide +kernel
+    rw [hp]
+    simp only [inRanges, List.any_cons, List.any_nil, Bool.or_false]
+    have h1 : ('x' : Char).toNat = 120 := by decide
+    have h2 : ('-' : Char).toNat = 45 := by decide
+    have h3 : ('a' : Char).toNat = 97 := by decide
+    have h4 : ('b' : Char).toNat = 98 := by decide
+    have h5 : ('c' : Char).toNat = 99 := by decide
+    rw [h1, h2, h3, h4, h5]
+    rw [Bool.eq_iff_iff]
+    simp only [Bool.or_eq_true, Bool.and_eq_true, decide_eq_true_eq]
+    omega
+  exact ⟨callable_vs_regex ops _ (by decide) _ hrs _ _ _ _ _ _,
+    callable_vs_regex_file ops _ (by decide) _ hrs (by decide +kernel) _ _ _ _ _ _ _ _⟩
+
+/-- the two code paths on a concrete line (they are different programs): -/
+example :
+    filterRegex (parseSetExpr "a-cx-".toList) ' ' "a-b!cdx".toList = "a-b c x".toList ∧
+    filterCallable (inRanges [('x', 'x'), ('-', '-'), ('a', 'b'), ('c', 'c')]) ' ' "a-b!cdx".toList
+      = "a-b c x".toList ∧
+    negClassMatches (parseSetExpr "a-cx-".toList) '\n' = true := by
+  decide +kernel
 
 /-- **remove_duplicates.**  `remove_duplicates=True` writes the same events in
     the same order as `remove_duplicates=False`, each with its cue list and its
     outcome list de-duplicated: no token twice, exactly the same tokens, first
     occurrences in their original order.  (The code writes `set(...)` order,
     which is unspecified; "same members, no repeats" is the order-free content,
-    and the harness compares sorted.) -/
-theorem remove_duplicates_spec (ops : TextOps) (al : Allowed) (ctx : ContextStructure)
+    and the harness compares sorted.)  Clause 1 is the property; clause 2 is a
+    general fact about `dedup = List.eraseDups` (no pyndl content — it says what
+    clause 1's `dedup` means). -/
+theorem remove_duplicates_spec (ops : TextOps) (al : Allowed) (_hs : al.Supported)
+    (ctx : ContextStructure)
     (es : EventStructure) (cs : CueStructure) (lc : Bool) (rawLines : List (List Char)) :
     createEventsG ops ⟨al, ctx, es, cs, lc, true⟩ rawLines
       = (createEventsG ops ⟨al, ctx, es, cs, lc, false⟩ rawLines).map
@@ -636,7 +957,8 @@ theorem remove_duplicates_spec (ops : TextOps) (al : Allowed) (ctx : ContextStru
   ⟨createEventsG_dedup ops al ctx es cs lc rawLines,
    fun l => ⟨dedup_nodup l, fun _ => mem_dedup, dedup_sublist l⟩⟩
 
-/-- **`event_structure='line'`**: a context of at least one word gives exactly
+/-- (definitional: `simp` with the definitions of `processWords`,
+    `genOccurrences`, `processOccurrences`) **`event_structure='line'`**: a context of at least one word gives exactly
     one event — word cues: cues = outcomes = the words of the context; n-gram
     cues: the letter n-grams of `#w1#…#wk#` as cues, the words as outcomes; with
     `remove_duplicates` each side de-duplicated.  An empty context gives none
@@ -656,11 +978,12 @@ theorem line_event_spec (al : Allowed) (ctx : ContextStructure) (lc : Bool) (wor
 /-- … so with `context_structure='line'`, `event_structure='line'` every corpus
     line with at least one word is one event, in order (word cues, no
     de-duplication shown). -/
-theorem line_line_spec (ops : TextOps) (al : Allowed) (lc : Bool) (rawLines : List (List Char)) :
+theorem line_line_spec (ops : TextOps) (al : Allowed) (hs : al.Supported) (lc : Bool)
+    (rawLines : List (List Char)) :
     createEventsG ops ⟨al, .line, .line, .wordToWord, lc, false⟩ rawLines
       = ((rawLines.map (lineWordsG ops lc al)).filter (fun ws => !ws.isEmpty)).map
           (fun ws => ⟨ws, ws⟩) := by
-  rw [create_line_eq_contexts ops _ rfl]
+  rw [create_line_eq_contexts ops _ hs rfl]
   generalize rawLines.map (lineWordsG ops lc al) = L
   induction L with
   | nil => rfl
@@ -693,14 +1016,16 @@ example (t : Tables) (rawLines : List (List Char)) :
     anything), none on the n-gram size, and (b) is only used when
     `lower_case=True`.  Both hypotheses are necessary: see the two
     counter-examples below. -/
-theorem tokens_no_newline (ops : TextOps) (o : Options) (rawLines : List (List Char))
+theorem tokens_no_newline (ops : TextOps) (o : Options) (_hs : o.allowed.Supported)
+    (rawLines : List (List Char))
     (hraw : ∀ raw ∈ rawLines, '\n' ∉ raw) (hlower : o.lowerCase = true → LowerKeeps '\n' ops) :
     ∀ ev ∈ createEventsG ops o rawLines,
       (∀ tok ∈ ev.cues, '\n' ∉ tok) ∧ (∀ tok ∈ ev.outcomes, '\n' ∉ tok) :=
   createEventsG_free_raw (d := '\n') (by decide) (by decide) ops o hlower rawLines hraw
 
 /-- the tables instance, with the decidable hypothesis on the table. -/
-theorem tokens_no_newline_tables (t : Tables) (o : Options) (rawLines : List (List Char))
+theorem tokens_no_newline_tables (t : Tables) (o : Options) (_hs : o.allowed.Supported)
+    (rawLines : List (List Char))
     (hraw : ∀ raw ∈ rawLines, '\n' ∉ raw) (hlower : ∀ p ∈ t.lower, '\n' ∉ p.2) :
     ∀ ev ∈ createEvents t o rawLines,
       (∀ tok ∈ ev.cues, '\n' ∉ tok) ∧ (∀ tok ∈ ev.outcomes, '\n' ∉ tok) :=
@@ -708,7 +1033,8 @@ theorem tokens_no_newline_tables (t : Tables) (o : Options) (rawLines : List (Li
 
 /-- the same for CR (and, by `Create.createEventsG_free_raw`, for every
     character other than the blank and `#`). -/
-theorem tokens_no_cr (ops : TextOps) (o : Options) (rawLines : List (List Char))
+theorem tokens_no_cr (ops : TextOps) (o : Options) (_hs : o.allowed.Supported)
+    (rawLines : List (List Char))
     (hraw : ∀ raw ∈ rawLines, '\r' ∉ raw) (hlower : o.lowerCase = true → LowerKeeps '\r' ops) :
     ∀ ev ∈ createEventsG ops o rawLines,
       (∀ tok ∈ ev.cues, '\r' ∉ tok) ∧ (∀ tok ∈ ev.outcomes, '\r' ∉ tok) :=
@@ -735,14 +1061,14 @@ example : createEvents ⟨[' ', '\n', '\t'], [('A', "x\ny".toList)]⟩
     trip: under the hypotheses of `tokens_clean` (n-gram size ≥ 1) and
     `tokens_no_newline`, every written token (cue or outcome) is non-empty and
     contains no TAB, no LF and no underscore. -/
-theorem tokens_wf_for_text_format (ops : TextOps) (o : Options)
+theorem tokens_wf_for_text_format (ops : TextOps) (o : Options) (hs : o.allowed.Supported)
     (hn : ∀ n, o.cue = .ngrams n → 1 ≤ n) (rawLines : List (List Char))
     (hraw : ∀ raw ∈ rawLines, '\n' ∉ raw) (hlower : o.lowerCase = true → LowerKeeps '\n' ops) :
     ∀ ev ∈ createEventsG ops o rawLines, ∀ tok ∈ ev.cues ++ ev.outcomes,
       tok ≠ [] ∧ '\t' ∉ tok ∧ '\n' ∉ tok ∧ '_' ∉ tok := by
   intro ev hev tok htok
-  obtain ⟨c1, c2⟩ := tokens_clean ops o hn rawLines ev hev
-  obtain ⟨n1, n2⟩ := tokens_no_newline ops o rawLines hraw hlower ev hev
+  obtain ⟨c1, c2⟩ := tokens_clean ops o hs hn rawLines ev hev
+  obtain ⟨n1, n2⟩ := tokens_no_newline ops o hs rawLines hraw hlower ev hev
   rcases List.mem_append.mp htok with h | h
   · exact ⟨(c1 tok h).1, (c1 tok h).2.2.2, n1 tok h, (c1 tok h).2.2.1⟩
   · exact ⟨(c2 tok h).1, (c2 tok h).2.2.2.1, n2 tok h, (c2 tok h).2.2.1⟩
@@ -802,7 +1128,7 @@ example :
         ⟨.expr "α-ω".toList, .document, .line, .ngrams 2, true, true⟩
         ["ΑΣ ---end.of.document--- ΣΑ ΣΑ x".toList],
       (∀ tok ∈ ev.cues, '\n' ∉ tok) ∧ (∀ tok ∈ ev.outcomes, '\n' ∉ tok) :=
-  tokens_no_newline _ _ _ (by decide +kernel) (fun _ => sigmaLower_keeps_lf)
+  tokens_no_newline _ _ (by decide) _ (by decide +kernel) (fun _ => sigmaLower_keeps_lf)
 
 /-- `tokens_lowered` APPLIED: no token of that corpus contains a capital `Σ` or
     `Α` (`L c := c ≠ 'Σ' ∧ c ≠ 'Α'` holds of every character `sigmaLower`
@@ -813,7 +1139,7 @@ example :
         ["ΑΣ ---end.of.document--- ΣΑ ΣΑ x".toList],
       (∀ tok ∈ ev.outcomes, ∀ c ∈ tok, c ≠ 'Σ' ∧ c ≠ 'Α') ∧
       (∀ tok ∈ ev.cues, ∀ c ∈ tok, (c ≠ 'Σ' ∧ c ≠ 'Α') ∨ c = '#') := by
-  refine tokens_lowered _ _ rfl (fun c => c ≠ 'Σ' ∧ c ≠ 'Α') ?_ _
+  refine tokens_lowered _ _ (by decide) rfl (fun c => c ≠ 'Σ' ∧ c ≠ 'Α') ?_ _
   intro s c hc
   have key : ∀ l : List Char,
       ∀ c ∈ l.map (fun c => if c = 'Σ' then 'σ' else if c = 'Α' then 'α' else c), c ≠ 'Σ' ∧ c ≠ 'Α' := by
@@ -850,6 +1176,68 @@ example : ¬ SplitOK ["ab".toList, "---end.of.document---".toList, " c ---ENDxOF
   have := h.2.2.2 3 (by decide)
   revert this
   decide +kernel
+
+/-- `split_spec` APPLIED, all three clauses, on a line with two markers: the
+    uniqueness clause is used to IDENTIFY the split — a hand-written list that
+    concatenates to the line and satisfies `SplitOK` (both hypotheses discharged
+    by evaluation) is `contextSplit` of the line. -/
+example :
+    let s := "ab---end.of.document--- c ---ENDxOF DOCUMENT---".toList
+    let l := ["ab".toList, "---end.of.document---".toList, " c ".toList, "---ENDxOF DOCUMENT---".toList, []]
+    (contextSplit s).flatten = s ∧ SplitOK (contextSplit s) ∧ l = contextSplit s := by
+  intro s l
+  have hok : SplitOK l := by
+    refine ⟨?_, by decide +kernel, by decide +kernel, ?_, by decide +kernel, by decide +kernel, ?_⟩
+    · unfold NoMarkerIn; decide +kernel
+    · unfold NoMarkerIn; decide +kernel
+    · show NoMarkerIn [] []
+      unfold NoMarkerIn; decide +kernel
+  exact ⟨(split_spec s).1, (split_spec s).2.1, (split_spec s).2.2 l hok (by decide +kernel)⟩
+
+/-- `tokens_clean` and `tokens_allowed` APPLIED (all hypotheses instantiated) to
+    the final-sigma corpus above: `allowed_symbols='α-ω'` (a plain expression),
+    bigram cues (n = 2 ≥ 1), document contexts, duplicates removed. -/
+example :
+    ∀ ev ∈ createEventsG ⟨sigmaLower, fun c => c == ' '⟩
+        ⟨.expr "α-ω".toList, .document, .line, .ngrams 2, true, true⟩
+        ["ΑΣ ---end.of.document--- ΣΑ ΣΑ x".toList],
+      ((∀ tok ∈ ev.cues, tok ≠ [] ∧ ' ' ∉ tok ∧ '_' ∉ tok ∧ '\t' ∉ tok) ∧
+       (∀ tok ∈ ev.outcomes, tok ≠ [] ∧ ' ' ∉ tok ∧ '_' ∉ tok ∧ '\t' ∉ tok ∧ '#' ∉ tok)) ∧
+      ((∀ tok ∈ ev.outcomes, ∀ c ∈ tok, inRanges [('α', 'ω')] c = true) ∧
+       (∀ tok ∈ ev.cues, ∀ c ∈ tok, inRanges [('α', 'ω')] c = true ∨ c = '#')) := by
+  intro ev hev
+  have hn : ∀ n, (Options.mk (.expr "α-ω".toList) .document .line (.ngrams 2) true true).cue = .ngrams n → 1 ≤ n := by
+    intro n h; cases h; decide
+  have hp : parseSetExpr "α-ω".toList = [('α', 'ω')] := by decide +kernel
+  have h2 := tokens_allowed _ _ (by decide) _ ev hev
+  simp only [Allowed.ok, hp] at h2
+  exact ⟨tokens_clean _ _ (by decide) hn _ ev hev, h2⟩
+
+/-- `bad_pattern_raises` APPLIED: `allowed_symbols='z-a'` (plain, one range with
+    `lo > hi`) on an arbitrary file system — and `good_pattern_compiles` for
+    `'a-z0-9'`. -/
+example (fs : FS) :
+    createEventFileX (fun _ => false) ⟨id, fun c => c == ' '⟩
+        ⟨.expr "z-a".toList, .document, .line, .wordToWord, false, false⟩ "c" "e" fs
+      = (.error .badPattern, fs) ∧
+    (createEventFileX (fun _ => false) ⟨id, fun c => c == ' '⟩
+        ⟨.expr "a-z0-9".toList, .document, .line, .wordToWord, false, false⟩ "c" "e" fs).1
+      ≠ .error .badPattern :=
+  ⟨bad_pattern_raises (fun _ => false) ⟨id, fun c => c == ' '⟩
+      ⟨.expr "z-a".toList, .document, .line, .wordToWord, false, false⟩ "z-a".toList rfl (by decide)
+      (Or.inr ⟨('z', 'a'), by decide, by decide⟩) "c" "e" fs,
+   (good_pattern_compiles (fun _ => false) ⟨id, fun c => c == ' '⟩
+      ⟨.expr "a-z0-9".toList, .document, .line, .wordToWord, false, false⟩ "a-z0-9".toList rfl (by decide)
+      (by decide) (by decide +kernel) "c" "e" fs).2⟩
+
+/-- the domain predicate is decidable and delimits what the review found:
+    the three spellings on which model and `re` differ are outside it. -/
+example :
+    SetExprPlain "a-z0-9-".toList ∧ ¬ SetExprPlain "\\".toList ∧ ¬ SetExprPlain "\\d".toList ∧
+    ¬ SetExprPlain "a]b".toList ∧
+    Allowed.Supported (.expr "α-ω".toList) ∧ Allowed.Supported .all ∧ Allowed.Supported (.table []) ∧
+    ¬ Allowed.Supported (.expr "a]b".toList) := by
+  decide
 
 /-! ### non-vacuity -/
 
